@@ -55,7 +55,8 @@ def strategy_(draw, tier):
             c['tie_rate'] = draw(st.sampled_from([0.5, 1.5, 2.5, 0.25, 0.75]))
     elif op == 'integrate':
         c.update(axis=draw(st.sampled_from(['t', 'f', 0, 1])), mode=draw(st.sampled_from(['mean', 'sum', 's', 'm'])),
-                 normalize=draw(st.booleans()), how=draw(st.sampled_from(['array', 'frame', 'helper'])))
+                 normalize=draw(st.booleans()), how=draw(st.sampled_from(['array', 'frame', 'helper'])),
+                 omit_defaults=draw(st.sampled_from([False, False, True])))
     else:
         c.update(start=draw(gen.finite(0.3, 0.7)), drift_ch=draw(gen.finite(-1.5, 1.5)))
     return c
@@ -296,16 +297,21 @@ def run_case(case, ctx):
     red = np.sum if mode[0] == 's' else np.mean
     raw = red(before, axis=0 if t_axis else 1)
     obs.cls('integrate_norm' if normalize else 'integrate_raw')
+    # documented defaults (axis='t', mode='mean', normalize=False) are left out in a third of the cases
+    kwi = dict(axis=axis, mode=mode, normalize=normalize)
+    if case.get('omit_defaults'):
+        obs.cls('integrate_defaults_omitted')
+        kwi = {k: v for k, v in kwi.items() if not ((k == 'axis' and v == 't') or (k == 'mode' and v == 'mean') or (k == 'normalize' and v is False))}
     if how == 'array':
-        ok, out = core.call(obs, 'integrate', stg.integrate, fr, axis=axis, mode=mode, normalize=normalize)
+        ok, out = core.call(obs, 'integrate', stg.integrate, fr, **kwi)
         child = None
     elif how == 'frame':
-        ok, child = core.call(obs, 'integrate_frame', stg.integrate, fr, axis=axis, mode=mode,
-                              normalize=normalize, as_frame=True)
+        ok, child = core.call(obs, 'integrate_frame', stg.integrate, fr, as_frame=True, **kwi)
         obs.cls('integrate_frame')
     else:
         f = stg.spectrum if t_axis else stg.timeseries
-        ok, child = core.call(obs, 'spectrum_timeseries', f, fr, mode=mode, normalize=normalize)
+        kwi.pop('axis', None)
+        ok, child = core.call(obs, 'spectrum_timeseries', f, fr, **kwi)
         obs.cls('integrate_frame')
     if not ok:
         return obs
